@@ -132,6 +132,10 @@ def check_case(idx, sl, T, v, R):
         feats = feats0 | {'pyvalue', 'enc:' + ename}
         if has_absent_optional(T, v):
             feats.add('absent_optional')
+        if U.contains(T, lambda t: t[0] in ('SEQ', 'SET') and any(f[2] == 'D' and M.base_of(f[1])[0] == 'NULL' for f in t[1])):
+            feats.add('default_null')
+        if default_constructed_equal(T, v):
+            feats.add('default_constructed_equal')
         try:
             ref = enc(B.build(T, v, spec))
         except Exception:
@@ -184,6 +188,29 @@ def has_absent_optional(T, v):
         return any(has_absent_optional(T[1], x) for x in v)
     if k == 'CHOICE':
         return has_absent_optional(dict(T[1])[v[0]], v[1])
+    return False
+
+
+def default_constructed_equal(T, v):
+    """some DEFAULT component of constructed/CHOICE type holds exactly its default value"""
+    T = M.strip_con(T)
+    k = T[0]
+    if k == 'TAG':
+        return default_constructed_equal(T[4], v)
+    if k in ('SEQ', 'SET'):
+        for name, ft, opt, d in T[1]:
+            if name not in v:
+                continue
+            if opt == 'D' and M.base_of(ft)[0] in ('SEQ', 'SET', 'SEQOF', 'SETOF', 'CHOICE') and \
+                    M.values_equal(ft, v[name], M.thaw(d)):
+                return True
+            if default_constructed_equal(ft, v[name]):
+                return True
+        return False
+    if k in ('SEQOF', 'SETOF'):
+        return any(default_constructed_equal(T[1], x) for x in v)
+    if k == 'CHOICE':
+        return default_constructed_equal(dict(T[1])[v[0]], v[1])
     return False
 
 
